@@ -45,10 +45,10 @@ import (
 
 func init() { engines["anyprog"] = engineAnyProg }
 
-const apRel = "anyutil/any.go"
+const anypRel = "anyutil/any.go"
 
 // the packages the forms of the language mention, by the name used in the source
-var apWantImport = map[string]string{
+var anypWantImport = map[string]string{
 	"fmt":           "fmt",
 	"strings":       "strings",
 	"proto":         "google.golang.org/protobuf/proto",
@@ -60,7 +60,7 @@ var apWantImport = map[string]string{
 	"anypb":         "google.golang.org/protobuf/types/known/anypb",
 }
 
-var apTypeKind = map[string]string{
+var anypTypeKind = map[string]string{
 	"*anypb.Any":                        "any",
 	"proto.Message":                     "msg",
 	"proto.MarshalOptions":              "opts",
@@ -75,30 +75,30 @@ var apTypeKind = map[string]string{
 	"protoreflect.MessageDescriptor":    "mdesc",
 }
 
-var apNilable = map[string]bool{"any": true, "msg": true, "tres": true, "fres": true, "err": true, "typ": true, "desc": true, "mdesc": true}
+var anypNilable = map[string]bool{"any": true, "msg": true, "tres": true, "fres": true, "err": true, "typ": true, "desc": true, "mdesc": true}
 
-type apFail struct{ msg string }
+type anypFail struct{ msg string }
 
-type apSig struct {
+type anypSig struct {
 	params  []string // kinds
 	results []string
 }
 
-type apTr struct {
+type anypTr struct {
 	fset    *token.FileSet
 	imports map[string]string // name -> path
-	funcs   map[string]apSig  // the functions of the file
+	funcs   map[string]anypSig  // the functions of the file
 	top     map[string]bool   // every top-level name
 	scopes  []map[string]string
 	results []string
 }
 
-func (t *apTr) fail(pos token.Pos, why string) {
+func (t *anypTr) fail(pos token.Pos, why string) {
 	p := t.fset.Position(pos)
-	panic(apFail{fmt.Sprintf("untranslatable:%d:%d:%s", p.Line, p.Column, why)})
+	panic(anypFail{fmt.Sprintf("untranslatable:%d:%d:%s", p.Line, p.Column, why)})
 }
 
-func apQuote(s string) string {
+func anypQuote(s string) string {
 	var b strings.Builder
 	b.WriteByte('"')
 	for _, c := range []byte(s) {
@@ -116,9 +116,9 @@ func apQuote(s string) string {
 	return b.String()
 }
 
-func (t *apTr) push() { t.scopes = append(t.scopes, map[string]string{}) }
-func (t *apTr) pop()  { t.scopes = t.scopes[:len(t.scopes)-1] }
-func (t *apTr) lookup(x string) (string, bool) {
+func (t *anypTr) push() { t.scopes = append(t.scopes, map[string]string{}) }
+func (t *anypTr) pop()  { t.scopes = t.scopes[:len(t.scopes)-1] }
+func (t *anypTr) lookup(x string) (string, bool) {
 	for i := len(t.scopes) - 1; i >= 0; i-- {
 		if k, ok := t.scopes[i][x]; ok {
 			return k, true
@@ -128,12 +128,12 @@ func (t *apTr) lookup(x string) (string, bool) {
 }
 
 // a name that must denote what it denotes in the universe / the import block: not declared by the file
-func (t *apTr) free(id *ast.Ident) bool {
+func (t *anypTr) free(id *ast.Ident) bool {
 	_, local := t.lookup(id.Name)
 	return !local && !t.top[id.Name] && id.Obj == nil
 }
 
-func (t *apTr) ident(pos token.Pos, s string) string {
+func (t *anypTr) ident(pos token.Pos, s string) string {
 	if s == "" || strings.ContainsAny(s, " \t()\"\\") {
 		t.fail(pos, "identifier "+strconv.Quote(s))
 	}
@@ -141,18 +141,18 @@ func (t *apTr) ident(pos token.Pos, s string) string {
 }
 
 // pkg: is e the qualifier of the package imported as `name` from the expected path?
-func (t *apTr) pkg(e ast.Expr, name string) bool {
+func (t *anypTr) pkg(e ast.Expr, name string) bool {
 	id, ok := e.(*ast.Ident)
-	return ok && id.Name == name && t.free(id) && t.imports[name] == apWantImport[name] && apWantImport[name] != ""
+	return ok && id.Name == name && t.free(id) && t.imports[name] == anypWantImport[name] && anypWantImport[name] != ""
 }
 
 // qual: e is pkg.Name
-func (t *apTr) qual(e ast.Expr, pkg, name string) bool {
+func (t *anypTr) qual(e ast.Expr, pkg, name string) bool {
 	s, ok := e.(*ast.SelectorExpr)
 	return ok && s.Sel.Name == name && t.pkg(s.X, pkg)
 }
 
-func (t *apTr) strLit(e ast.Expr) (string, bool) {
+func (t *anypTr) strLit(e ast.Expr) (string, bool) {
 	b, ok := e.(*ast.BasicLit)
 	if !ok || b.Kind != token.STRING {
 		return "", false
@@ -165,10 +165,10 @@ func (t *apTr) strLit(e ast.Expr) (string, bool) {
 }
 
 // compatible: may a value of kind k be stored in / compared with / returned as kind want?
-func apCompat(k, want string) bool { return k == want || (k == "nil" && apNilable[want]) }
+func anypCompat(k, want string) bool { return k == want || (k == "nil" && anypNilable[want]) }
 
 // one: a single-valued expression
-func (t *apTr) one(e ast.Expr) (string, string) {
+func (t *anypTr) one(e ast.Expr) (string, string) {
 	sx, ks := t.expr(e, false)
 	if len(ks) != 1 {
 		t.fail(e.Pos(), "a single value is needed")
@@ -176,7 +176,7 @@ func (t *apTr) one(e ast.Expr) (string, string) {
 	return sx, ks[0]
 }
 
-func (t *apTr) oneOf(e ast.Expr, kind string, what string) string {
+func (t *anypTr) oneOf(e ast.Expr, kind string, what string) string {
 	sx, k := t.one(e)
 	if k != kind {
 		t.fail(e.Pos(), what+": operand of kind "+k+", want "+kind)
@@ -185,7 +185,7 @@ func (t *apTr) oneOf(e ast.Expr, kind string, what string) string {
 }
 
 // expr: the text and the kinds of the values. commaOk: the expression is the right-hand side of `v, ok := …`.
-func (t *apTr) expr(e ast.Expr, commaOk bool) (string, []string) {
+func (t *anypTr) expr(e ast.Expr, commaOk bool) (string, []string) {
 	switch x := e.(type) {
 	case *ast.Ident:
 		if x.Name == "nil" {
@@ -204,7 +204,7 @@ func (t *apTr) expr(e ast.Expr, commaOk bool) (string, []string) {
 		return t.ident(x.Pos(), x.Name), []string{k}
 	case *ast.BasicLit:
 		if s, ok := t.strLit(x); ok {
-			return "(str " + apQuote(s) + ")", []string{"str"}
+			return "(str " + anypQuote(s) + ")", []string{"str"}
 		}
 		t.fail(x.Pos(), "literal "+x.Value)
 	case *ast.BinaryExpr:
@@ -217,7 +217,7 @@ func (t *apTr) expr(e ast.Expr, commaOk bool) (string, []string) {
 			}
 			return "(+ " + a + " " + b + ")", []string{"str"}
 		case token.EQL, token.NEQ:
-			ok := (ka == "nil" && apNilable[kb]) || (kb == "nil" && apNilable[ka]) || (ka == kb && (ka == "err" || ka == "bool" || ka == "str"))
+			ok := (ka == "nil" && anypNilable[kb]) || (kb == "nil" && anypNilable[ka]) || (ka == kb && (ka == "err" || ka == "bool" || ka == "str"))
 			if !ok {
 				t.fail(x.Pos(), "comparison of "+ka+" and "+kb)
 			}
@@ -264,7 +264,7 @@ func (t *apTr) expr(e ast.Expr, commaOk bool) (string, []string) {
 	return "", nil
 }
 
-func (t *apTr) call(x *ast.CallExpr) (string, []string) {
+func (t *anypTr) call(x *ast.CallExpr) (string, []string) {
 	if x.Ellipsis != token.NoPos {
 		t.fail(x.Pos(), "call with ...")
 	}
@@ -310,7 +310,7 @@ func (t *apTr) call(x *ast.CallExpr) (string, []string) {
 		sx := "(call " + t.ident(f.Pos(), f.Name)
 		for i, a := range x.Args {
 			s, k := t.one(a)
-			if !apCompat(k, sig.params[i]) {
+			if !anypCompat(k, sig.params[i]) {
 				t.fail(a.Pos(), "argument of kind "+k+" for a parameter of kind "+sig.params[i])
 			}
 			sx += " " + s
@@ -324,7 +324,7 @@ func (t *apTr) call(x *ast.CallExpr) (string, []string) {
 			if !ok {
 				t.fail(x.Pos(), "strings.TrimPrefix with a prefix that is not a literal")
 			}
-			return "(trim-prefix " + t.oneOf(x.Args[0], "str", "strings.TrimPrefix") + " " + apQuote(p) + ")", []string{"str"}
+			return "(trim-prefix " + t.oneOf(x.Args[0], "str", "strings.TrimPrefix") + " " + anypQuote(p) + ")", []string{"str"}
 		case t.qual(f, "protoreflect", "FullName"):
 			nargs(1, "protoreflect.FullName")
 			return "(to-full-name " + t.oneOf(x.Args[0], "str", "protoreflect.FullName") + ")", []string{"str"}
@@ -336,7 +336,7 @@ func (t *apTr) call(x *ast.CallExpr) (string, []string) {
 			if !ok {
 				t.fail(x.Pos(), "fmt.Errorf with a format that is not a literal")
 			}
-			sx := "(errorf " + apQuote(fm)
+			sx := "(errorf " + anypQuote(fm)
 			for _, a := range x.Args[1:] {
 				s, _ := t.one(a)
 				sx += " " + s
@@ -351,7 +351,7 @@ func (t *apTr) call(x *ast.CallExpr) (string, []string) {
 			if !ok {
 				t.fail(x.Pos(), "protoimpl.X.NewError with a message that is not a literal")
 			}
-			return "(new-error " + apQuote(m) + ")", []string{"err"}
+			return "(new-error " + anypQuote(m) + ")", []string{"err"}
 		}
 		if id, ok := f.X.(*ast.Ident); ok {
 			if _, isPkg := t.imports[id.Name]; isPkg && t.free(id) {
@@ -386,7 +386,7 @@ func (t *apTr) call(x *ast.CallExpr) (string, []string) {
 	return "", nil
 }
 
-func (t *apTr) block(l []ast.Stmt) string {
+func (t *anypTr) block(l []ast.Stmt) string {
 	var sb strings.Builder
 	for _, s := range l {
 		sb.WriteByte(' ')
@@ -395,7 +395,7 @@ func (t *apTr) block(l []ast.Stmt) string {
 	return sb.String()
 }
 
-func (t *apTr) names(l []ast.Expr) ([]string, bool) {
+func (t *anypTr) names(l []ast.Expr) ([]string, bool) {
 	var out []string
 	for _, e := range l {
 		id, ok := e.(*ast.Ident)
@@ -407,7 +407,7 @@ func (t *apTr) names(l []ast.Expr) ([]string, bool) {
 	return out, true
 }
 
-func (t *apTr) stmt(s ast.Stmt) string {
+func (t *anypTr) stmt(s ast.Stmt) string {
 	switch x := s.(type) {
 	case *ast.AssignStmt:
 		if len(x.Rhs) != 1 {
@@ -456,7 +456,7 @@ func (t *apTr) stmt(s ast.Stmt) string {
 				continue
 			}
 			k, ok := t.lookup(v)
-			if !ok || !apCompat(ks[i], k) {
+			if !ok || !anypCompat(ks[i], k) {
 				t.fail(x.Pos(), "assignment of a "+ks[i]+" to "+v)
 			}
 		}
@@ -508,7 +508,7 @@ func (t *apTr) stmt(s ast.Stmt) string {
 			t.fail(x.Pos(), fmt.Sprintf("return of %d values from a function with %d results", len(kinds), len(t.results)))
 		}
 		for i, k := range kinds {
-			if !apCompat(k, t.results[i]) {
+			if !anypCompat(k, t.results[i]) {
 				t.fail(x.Pos(), "return of a "+k+" as "+t.results[i])
 			}
 		}
@@ -518,19 +518,19 @@ func (t *apTr) stmt(s ast.Stmt) string {
 	return ""
 }
 
-func apKindOf(texpr ast.Expr) (string, string) {
+func anypKindOf(texpr ast.Expr) (string, string) {
 	txt := types.ExprString(texpr)
-	if k, ok := apTypeKind[txt]; ok {
+	if k, ok := anypTypeKind[txt]; ok {
 		return txt, k
 	}
 	return txt, "?"
 }
 
-func (t *apTr) sig(fd *ast.FuncDecl) (apSig, []string, []string, []string) {
-	var sg apSig
+func (t *anypTr) sig(fd *ast.FuncDecl) (anypSig, []string, []string, []string) {
+	var sg anypSig
 	var pnames, ptexts, rtexts []string
 	for _, f := range fd.Type.Params.List {
-		txt, k := apKindOf(f.Type)
+		txt, k := anypKindOf(f.Type)
 		if len(f.Names) == 0 {
 			pnames, ptexts, sg.params = append(pnames, "_"), append(ptexts, txt), append(sg.params, k)
 		}
@@ -540,7 +540,7 @@ func (t *apTr) sig(fd *ast.FuncDecl) (apSig, []string, []string, []string) {
 	}
 	if fd.Type.Results != nil {
 		for _, f := range fd.Type.Results.List {
-			txt, k := apKindOf(f.Type)
+			txt, k := anypKindOf(f.Type)
 			n := len(f.Names)
 			if n == 0 {
 				n = 1
@@ -555,10 +555,10 @@ func (t *apTr) sig(fd *ast.FuncDecl) (apSig, []string, []string, []string) {
 	return sg, pnames, ptexts, rtexts
 }
 
-func (t *apTr) function(fd *ast.FuncDecl) (sx string) {
+func (t *anypTr) function(fd *ast.FuncDecl) (sx string) {
 	defer func() {
 		if r := recover(); r != nil {
-			if f, ok := r.(apFail); ok {
+			if f, ok := r.(anypFail); ok {
 				sx = f.msg
 				return
 			}
@@ -599,13 +599,13 @@ func (t *apTr) function(fd *ast.FuncDecl) (sx string) {
 	return sb.String()
 }
 
-type apDecl struct {
+type anypDecl struct {
 	name string
 	fd   *ast.FuncDecl
 }
 
-// apTranslate: the imports line, the declarations in source order (non-functions by a tag) and the translation of each function
-func apTranslate(path string) (imports string, decls []apDecl, tr *apTr, err error) {
+// anypTranslate: the imports line, the declarations in source order (non-functions by a tag) and the translation of each function
+func anypTranslate(path string) (imports string, decls []anypDecl, tr *anypTr, err error) {
 	fset := token.NewFileSet()
 	src, err := os.ReadFile(path)
 	if err != nil {
@@ -615,7 +615,7 @@ func apTranslate(path string) (imports string, decls []apDecl, tr *apTr, err err
 	if err != nil {
 		return "", nil, nil, err
 	}
-	tr = &apTr{fset: fset, imports: map[string]string{}, funcs: map[string]apSig{}, top: map[string]bool{}}
+	tr = &anypTr{fset: fset, imports: map[string]string{}, funcs: map[string]anypSig{}, top: map[string]bool{}}
 	var ims []string
 	for _, im := range file.Imports {
 		ip, _ := strconv.Unquote(im.Path.Value)
@@ -637,13 +637,13 @@ func apTranslate(path string) (imports string, decls []apDecl, tr *apTr, err err
 		switch x := d.(type) {
 		case *ast.FuncDecl:
 			if x.Recv != nil {
-				decls = append(decls, apDecl{name: "method:" + x.Name.Name})
+				decls = append(decls, anypDecl{name: "method:" + x.Name.Name})
 				continue
 			}
 			tr.top[x.Name.Name] = true
 			sg, _, _, _ := tr.sig(x)
 			tr.funcs[x.Name.Name] = sg
-			decls = append(decls, apDecl{name: x.Name.Name, fd: x})
+			decls = append(decls, anypDecl{name: x.Name.Name, fd: x})
 		case *ast.GenDecl:
 			if x.Tok == token.IMPORT {
 				continue
@@ -653,11 +653,11 @@ func apTranslate(path string) (imports string, decls []apDecl, tr *apTr, err err
 				case *ast.ValueSpec:
 					for _, n := range s.Names {
 						tr.top[n.Name] = true
-						decls = append(decls, apDecl{name: strings.ToLower(x.Tok.String()) + ":" + n.Name})
+						decls = append(decls, anypDecl{name: strings.ToLower(x.Tok.String()) + ":" + n.Name})
 					}
 				case *ast.TypeSpec:
 					tr.top[s.Name.Name] = true
-					decls = append(decls, apDecl{name: "type:" + s.Name.Name})
+					decls = append(decls, anypDecl{name: "type:" + s.Name.Name})
 				}
 			}
 		}
@@ -665,10 +665,10 @@ func apTranslate(path string) (imports string, decls []apDecl, tr *apTr, err err
 	return strings.Join(ims, " "), decls, tr, nil
 }
 
-// apCapture: the lines a scratch run of another engine wrote
+// anypCapture: the lines a scratch run of another engine wrote
 func engineAnyProg(c config, o *out) {
-	path := filepath.Join(gfRepo(), filepath.FromSlash(apRel))
-	imports, decls, tr, err := apTranslate(path)
+	path := filepath.Join(gfRepo(), filepath.FromSlash(anypRel))
+	imports, decls, tr, err := anypTranslate(path)
 	if err != nil {
 		o.kase("ANYPROG", []string{"decls"}, "unreadable:"+strings.NewReplacer("\t", " ", "\n", " ").Replace(err.Error()))
 		return
